@@ -52,8 +52,19 @@ def main():
                 # store-level history: blobs written through store_blob, multi-path sync_paths calls; then the whole file system
                 from collections import OrderedDict
                 store = _api._store()
-                oks = []
+                oks, traces = [], []
+
+                def writes(calls):
+                    # the mutating dbutils calls with a dbfs: destination, in order
+                    out_ = []
+                    for c_ in calls:
+                        if c_[0] == "put":
+                            out_.append("put>" + c_[1].encode("utf-8").hex())
+                        elif c_[0] == "cp" and not str(c_[2]).startswith("file:"):
+                            out_.append("cp>" + str(c_[2]).encode("utf-8").hex())
+                    return ",".join(out_)
                 for op in st["hist"]:
+                    n0 = len(dbu.fs.calls)
                     try:
                         if op[0] == "blob":
                             store.store_blob(op[1], bytes.fromhex(op[2]).decode("utf-8"), None)
@@ -62,6 +73,7 @@ def main():
                         oks.append("1")
                     except BaseException as e:  # noqa
                         oks.append("0")
+                    traces.append(writes(dbu.fs.calls[n0:]))
                 fetched = {}
                 for p_ in st.get("fetch", []):
                     try:
@@ -69,7 +81,7 @@ def main():
                     except BaseException as e:  # noqa
                         fetched[p_] = "!" + type(e).__name__
                 files = {k: v.hex() for k, v in dbu.fs.files.items() if not k.endswith(".meta") or "/blobs/" not in k}
-                out.append({"oks": "".join(oks), "files": files, "fetched": fetched})
+                out.append({"oks": "".join(oks), "files": files, "fetched": fetched, "traces": traces})
             elif "legacy" in st:
                 # a blob written by an older version: content + metadata naming a legacy codec reference
                 key, ref, kind = st["legacy"]
